@@ -173,6 +173,12 @@ Proof. exact drop_app. Qed.
 Theorem C16_prefix_irrelevant : forall p q m x d,
   call O leaf (with_prefix p m) x (pref p d) = call O leaf (with_prefix q m) x (pref q d).
 Proof using. exact (prefix_irrelevant O leaf (@gen_leaf_prefix_indep O X)). Qed.
+(* ... also after any chains of re-prefixing m.with_prefix(p1)...with_prefix(p): only the last
+   prefix matters *)
+Theorem C16_prefix_irrelevant_chain : forall ps p qs q m x d,
+  call O leaf (with_prefixes (ps ++ [p]) m) x (pref p d)
+  = call O leaf (with_prefixes (qs ++ [q]) m) x (pref q d).
+Proof using. exact (prefix_irrelevant_chain O leaf (@gen_leaf_prefix_indep O X)). Qed.
 Theorem C16_bad_params_refused_missing : forall m x params n,
   In n (pnames m) -> ~ In n (map fst params) -> call O leaf m x params = VErr O "ValueError".
 Proof using. exact (missing_param_refused O leaf). Qed.
@@ -223,6 +229,7 @@ Print Assumptions C16_polynomial_is_sum_deg6.
 Print Assumptions C16_polynomial_is_sum_all_degrees.
 Print Assumptions C16_prefix_strip.
 Print Assumptions C16_prefix_irrelevant.
+Print Assumptions C16_prefix_irrelevant_chain.
 Print Assumptions C16_bad_params_refused_missing.
 Print Assumptions C16_bad_params_refused_extra.
 Print Assumptions C16_composite_is_sum.
